@@ -24,7 +24,8 @@ import (
 	"verif/harness/hlib"
 )
 
-const base = "/tmp/verif_c23"
+// a private tree per harness process (several checks may run at once); removed at exit
+var base = "/tmp/verif_c23_" + strconv.Itoa(os.Getpid())
 
 var (
 	osRoot  = base + "/root"
@@ -219,10 +220,8 @@ func run(d desc) hlib.Case {
 	c.Coq = hlib.App("CFs", cfg, sfx, hlib.Hex(reqPath), hlib.Hex(host), rwObs, hlib.Z(int64(status)), hlib.List(openedHex), served)
 	shape := shapeSig(workPath)
 	c.Sig = kind(d) + "|" + strconv.Itoa(status) + "|" + shape + "|" + strconv.FormatBool(servedPath != "")
-	// known-finding class: compression negotiated on the default filesystem and the working path is the root directory itself
-	if d.OS && d.Gzip && len(bytes.Trim(workPath, "/")) == 0 && !bytes.Contains(workPath, []byte{0}) {
-		c.Key = "compress-root-sibling"
-	}
+	// (the former finding compress-root-sibling — compression negotiated for the root directory on the default
+	// filesystem — was fixed in b45a042; its witnesses stay in the corpus without a Key, so a regression is a violation)
 	return c
 }
 
@@ -309,18 +308,26 @@ func corpus() []desc {
 		"/%00", "/a/%00", "/a/f.txt%00", "/a/%00/../f.txt", "/%00/../a/f.txt", "/a/f.txt%00.html",
 		"/.../h.txt", "/..a/x.txt", "/a../x.txt", "/a/..b/y.txt", "/a\\b.txt", "/%252e%252e/p.txt", "/%252e%252e/secret.txt", "/%252e%252e/%252e%252e/secret.txt",
 		"/example.com/f.txt", "/x/f.txt", "/a../../secret.txt", "/a.././secret.txt", "/aa../secret.txt", "/aaa/../../secret.txt", "/x/../secret.txt", "/xx..", "/x..", "/..x",
-		"/a/f.txt?x=/../secret.txt", "/a/b/../f.txt#/../..", "/%2e%2e/%2e%2e/%2e%2e/tmp/verif_c23_secret.txt", "/a/b/c/../../../../secret.txt",
+		"/a/f.txt?x=/../secret.txt", "/a/b/../f.txt#/../..", "/%2e%2e/%2e%2e/%2e%2e/tmp/verif_c23_secret.txt", "/../../verif_c23_secret.txt", "/a/b/c/../../../../secret.txt",
 	}
+	short := []string{"/", "/a/f.txt", "/a/", "/a/..", "/../secret.txt", "/%2e%2e/secret.txt", "/a/b/", "/%00", "/nonexistent", "/noindex/", "/.", "/a/b/c/h.txt", "/x..", "/a../../secret.txt", "/a\\..\\..\\secret.txt"}
 	for _, c := range configs() {
-		for _, t := range dict {
-			out = append(out, mk(c, false, t, "example.com", "dict"))
+		full := (c.os && !c.croot) || (!c.os && c.root == "")
+		if full {
+			for _, t := range dict {
+				out = append(out, mk(c, false, t, "example.com", "dict"))
+			}
+		} else {
+			for _, t := range short {
+				out = append(out, mk(c, false, t, "example.com", "dict"))
+			}
 		}
-		for _, t := range []string{"/", "/a/f.txt", "/a/", "/a/..", "/../secret.txt", "/a/b/", "/%00", "/nonexistent", "/noindex/", "/.", "/a/b/c/h.txt"} {
+		for _, t := range short[:12] {
 			out = append(out, mk(c, true, t, "example.com", "dict-gz"))
 		}
-		if c.rw == "vhost" {
+		if c.rw == "vhost" && full {
 			for _, hst := range hosts {
-				for _, t := range []string{"/f.txt", "/a/f.txt", "/../secret.txt", "/", "/%252e%252e/secret.txt", "/%00"} {
+				for _, t := range []string{"/f.txt", "/../secret.txt", "/", "/%252e%252e/secret.txt"} {
 					out = append(out, mk(c, false, t, hst, "dict-host"))
 				}
 			}
@@ -375,6 +382,7 @@ func gen(r *rand.Rand, i int) desc {
 
 func main() {
 	buildTree()
+	defer os.RemoveAll(base)
 	hlib.Main(hlib.Prop[desc]{
 		ID:       "C23",
 		Imports:  "From FH Require Import Model.Base Model.FsPath Check.C23Check.",
